@@ -41,6 +41,11 @@ Fixpoint xent_list (ps qs : list Q) : R :=
   end.
 Definition kl_list (ps qs : list Q) : R := xent_list ps qs - entropy_list ps.
 
+(* logarithm bases as tags (no reals inside reflected data) *)
+Inductive btag := BT2 | BTE | BTQ (b : Q).
+Definition lnb (b : btag) : R := match b with BT2 => ln 2 | BTE => 1 | BTQ q => ln (Q2R q) end.
+Definition bpow (b : btag) (x : R) : R := exp (x * lnb b).
+
 (* reflected real-valued results: Q-level data + which denotation applies *)
 Inductive rdata :=
 | RLin (t : list (Q * list Q))                  (* sum c_i H(l_i), bits *)
@@ -53,9 +58,17 @@ Inductive rdata :=
 | RPow (b : Q) (t : list (Q * list Q))          (* b ^ (sum c_i H(l_i)) *)
 | RXent (ps qs : list Q)
 | RKL (ps qs : list Q)
-| RConst (q : Q).
+| RConst (q : Q)
+(* log-base rendering (C07): units and exponentials in a base *)
+| RInBase (b : btag) (r : rdata)                (* r is in bits; value in base-b units: r * ln 2 / ln b *)
+| RExpB (b : btag) (x : Q)                      (* b ^ x *)
+| RLogB (b : btag) (r : rdata)                  (* log_b r *)
+| RAdd (r1 r2 : rdata)
+| RMul (r1 r2 : rdata)
+| RNeg (r : rdata)
+| RInv (r : rdata).
 
-Definition rden (r : rdata) : R :=
+Fixpoint rden (r : rdata) : R :=
   match r with
   | RLin t => lincomb t
   | RNats t => ln 2 * lincomb t
@@ -68,6 +81,13 @@ Definition rden (r : rdata) : R :=
   | RXent ps qs => xent_list ps qs
   | RKL ps qs => kl_list ps qs
   | RConst q => Q2R q
+  | RInBase b r' => rden r' * (ln 2 / lnb b)
+  | RExpB b x => bpow b (Q2R x)
+  | RLogB b r' => ln (rden r') / lnb b
+  | RAdd r1 r2 => rden r1 + rden r2
+  | RMul r1 r2 => rden r1 * rden r2
+  | RNeg r' => - rden r'
+  | RInv r' => / rden r'
   end.
 
 (* ------------------------------------------------------------------------------------------ *)
